@@ -42,7 +42,7 @@ ASSUMPTIONS = [
     "payloads are compared with == only (same_payload); the harness uses payload values for which == is an equivalence",
 ]
 
-TRANSFORMS = ["copy", "rename", "dedup", "split"]
+TRANSFORMS = ["copy", "rename", "dedup", "split", "expand"]
 
 
 # ----------------------------------------------------------------------------- real side + oracle
@@ -249,7 +249,158 @@ def _rejoin(parts, cuts):
     return nodes, sorted(sinks)
 
 
-REAL = {"copy": real_copy, "rename": real_rename, "dedup": real_dedup, "split": real_split}
+class Invalid(Exception):
+    """The expander's answer selects something that does not exist (no meaning is defined)."""
+
+
+def expected_expand(ag, table):
+    """Reference semantics of expansion, from the documentation of expand_graph: sorted sink terms of the
+    expanded graph + the wiring of every consumer of an expanded node [(consumer, input, parent name)]."""
+    nodes = ag["nodes"]
+    T = L.INTERN
+    memo_n, memo_s = {}, {}
+
+    def leaf_of(j, o):
+        e = table[nodes[j]["name"]]
+        omap = dict(map(tuple, e["omap"])) if e["omap"] is not None else None
+        lname = o if omap is None else omap.get(o, o)
+        sub = e["sub"]
+        cands = [q for q in sub["sinks"] if sub["nodes"][q]["name"] == lname]
+        if not cands:
+            raise Invalid(f"output {o!r} of {nodes[j]['name']!r} selects sink {lname!r} which the sub-graph does not have")
+        return lname, cands[-1]
+
+    def leaf_names(j):
+        e = table[nodes[j]["name"]]
+        omap = dict(map(tuple, e["omap"])) if e["omap"] is not None else None
+        return {(o if omap is None else omap.get(o, o)) for o in nodes[j]["outputs"]}
+
+    def out_term(j, o):
+        if nodes[j]["name"] not in table:
+            return (o, node_term(j))
+        lname, q = leaf_of(j, o)
+        outs = sub_outputs(j, q)
+        if "0" not in outs:
+            raise Invalid(f"leaf {lname!r} has no default output")
+        return ("0", sub_term(j, q))
+
+    def node_term(i):
+        if i not in memo_n:
+            n = nodes[i]
+            memo_n[i] = T(("T", n["payload"], tuple(n["outputs"]),
+                           tuple(sorted((k,) + out_term(j, o) for k, j, o in n["inputs"]))))
+        return memo_n[i]
+
+    def src_input(j, m):
+        """The input of outer node j a source named m of its sub-graph is connected to (or None)."""
+        e = table[nodes[j]["name"]]
+        ins = {k: (jj, o) for k, jj, o in nodes[j]["inputs"]}
+        if e["imap"] is None:
+            return ins.get(m)
+        imap = dict(map(tuple, e["imap"]))
+        for src, iname in imap.items():
+            if iname not in ins:
+                raise Invalid(f"input map of {nodes[j]['name']!r} names input {iname!r} which the node does not have")
+        if m in imap:
+            return ins[imap[m]]
+        return None
+
+    def sub_outputs(j, q):
+        m = table[nodes[j]["name"]]["sub"]["nodes"][q]
+        if m["inputs"] and not m["outputs"] and m["name"] in leaf_names(j):
+            return ["0"]
+        return list(m["outputs"])
+
+    def sub_term(j, q):
+        if (j, q) not in memo_s:
+            sub = table[nodes[j]["name"]]["sub"]
+            m = sub["nodes"][q]
+            if not m["inputs"]:
+                src = src_input(j, m["name"])
+                ins = () if src is None else ((("input",) + out_term(*src)),)
+            else:
+                ins = tuple(sorted((k, o, sub_term(j, jj)) for k, jj, o in m["inputs"]))
+            memo_s[(j, q)] = T(("T", m["payload"], tuple(sub_outputs(j, q)), ins))
+        return memo_s[(j, q)]
+
+    sinks = []
+    for s in ag["sinks"]:
+        if nodes[s]["name"] in table:
+            src_input(s, "")     # validates the input map
+            sinks += [sub_term(s, q) for q in table[nodes[s]["name"]]["sub"]["sinks"]]
+        else:
+            sinks.append(node_term(s))
+    wiring = []
+    for i, n in enumerate(nodes):
+        if n["name"] in table:
+            src_input(i, "")
+            for k, j, o in n["inputs"]:
+                out_term(j, o)        # validity: every input edge must select something, used or not
+            for q in range(len(table[n["name"]]["sub"]["nodes"])):
+                sub_term(i, q)
+            continue
+        node_term(i)
+        for k, j, o in n["inputs"]:
+            if nodes[j]["name"] in table:
+                lname, _ = leaf_of(j, o)
+                wiring.append((n["name"], k, nodes[j]["name"] + "." + lname, "0"))
+    return sorted(sinks), sorted(wiring)
+
+
+def real_expand(case):
+    from earthkit.workflows.graph import expand_graph
+    ag = case["g"]
+    table = {nm: e for nm, e in case["exp"]}
+    g, objs = L.build(ag)
+
+    def ex(n):
+        e = table.get(n.name)
+        if e is None:
+            return None
+        sg, _ = L.build(e["sub"])
+        if e["imap"] is None and e["omap"] is None and e.get("bare"):
+            return sg
+        return (sg, dict(map(tuple, e["imap"])) if e["imap"] is not None else None,
+                dict(map(tuple, e["omap"])) if e["omap"] is not None else None)
+
+    try:
+        want = expected_expand(ag, table)
+    except Invalid as e:
+        want = None
+    try:
+        r = expand_graph(ex, g)
+        res = L.extract(r.sinks)
+    except Exception as e:
+        if want is None:
+            return {"err": _exc(e), "invalid": not isinstance(e, KeyError)}, []
+        return {"err": _exc(e)}, [_fail("raises", f"expand_graph raised {_exc(e)}: {e}")]
+    if want is None:
+        # meaningless expansion (selects a leaf / input that does not exist): whether the junk it produces is
+        # ever looked at depends on the rest of the graph; outside the domain, nothing is compared
+        return {"ok": res, "invalid": True}, []
+    fails = []
+    if want is not None:
+        got = sorted(L.Sym().sinks(r))
+        if got != want[0]:
+            fails.append(_fail("sink-terms-changed", "the sinks of the expanded graph do not denote the sinks of the input with every "
+                               "expanded node replaced by its sub-graph (leaf selected by the output map, sources connected per input map)"))
+        names = [n["name"] for n in res["nodes"]]
+        if len(set(names)) == len(names):
+            byname = {n["name"]: n for n in res["nodes"]}
+            for cname, k, pname, o in want[1]:
+                n = byname.get(cname)
+                if n is None:
+                    continue      # the consumer is not reachable from the result's sinks
+                ok = any(kk == k and res["nodes"][j]["name"] == pname and oo == o for kk, j, oo in n["inputs"])
+                if not ok:
+                    fails.append(_fail("expand-miswired", f"input {k!r} of {cname!r} is not connected to the default output of leaf {pname!r}"))
+                    break
+    return {"ok": res, "stats": {"expand:wired_consumer_inputs": len(want[1]),
+                                 "expand:expanded_sinks": sum(1 for s_ in ag["sinks"] if ag["nodes"][s_]["name"] in table),
+                                 "expand:expansions": len(table)}}, fails
+
+
+REAL = {"copy": real_copy, "rename": real_rename, "dedup": real_dedup, "split": real_split, "expand": real_expand}
 
 
 def run_case(case):
@@ -270,6 +421,26 @@ def classify(case):
         return "attr-output"
     if f["param_input"]:
         return "param-input"
+    if case["t"] == "expand":
+        names = {n["name"]: n for n in ag["nodes"]}
+        for nm, e in case.get("exp", []):
+            sf = L.features(e["sub"])
+            if sf["attr_output"]:
+                return "attr-output"
+            if sf["param_input"]:
+                return "param-input"
+        for nm, e in case.get("exp", []):
+            if nm not in names:
+                continue
+            omap = dict(map(tuple, e["omap"])) if e["omap"] is not None else {}
+            for o in names[nm]["outputs"]:
+                ln = omap.get(o, o)
+                if ln and ln[0] in set(nm + "."):
+                    return "lstrip"
+        for s_ in ag["sinks"]:
+            n = ag["nodes"][s_]
+            if n["name"] in dict(map(tuple, ((a, 1) for a, _ in case.get("exp", [])))) and n["outputs"]:
+                return "terminal-expansion"
     return "other"
 
 
@@ -286,12 +457,44 @@ def neighbors(case):
                 c["keys"] = [[new if a == old else a, b] for a, b in c["keys"]]
             if "table" in c:
                 c["table"] = [[new if a == old else a, b] for a, b in c["table"]]
+            if "exp" in c:
+                c["exp"] = [[new if a == old else a, e] for a, e in c["exp"]]
+        if change and change[0] == "rename-output" and "exp" in c:
+            _, nm, old, new = change
+            exp2 = []
+            for a, e in c["exp"]:
+                if a == nm:
+                    outs_old = [o for n in case["g"]["nodes"] if n["name"] == nm for o in n["outputs"]]
+                    om = dict(map(tuple, e["omap"])) if e["omap"] is not None else {}
+                    full = {o: om.get(o, o) for o in outs_old}
+                    e = dict(e, omap=[[new if o == old else o, l] for o, l in full.items()])
+                exp2.append([a, e])
+            c["exp"] = exp2
         yield c
     if case["t"] == "rename":
         if case.get("table"):
             yield dict(case, table=[])
         if case.get("prefix") not in ("r.",):
             yield dict(case, prefix="r.")
+    if case["t"] == "expand":
+        ex = case.get("exp", [])
+        for i in range(len(ex)):
+            yield dict(case, exp=ex[:i] + ex[i + 1:])
+        for i, (nm, e) in enumerate(ex):
+            for sub2, change in L.ag_neighbors(e["sub"]):
+                e2 = dict(e, sub=sub2)
+                if change and change[0] == "rename-node":
+                    _, old, new = change
+                    if e["imap"] is not None:
+                        e2["imap"] = [[new if a == old else a, b] for a, b in e["imap"]]
+                    elif any(k == old for n in case["g"]["nodes"] if n["name"] == nm for k, _, _ in n["inputs"]):
+                        continue
+                    if e["omap"] is not None:
+                        e2["omap"] = [[a, new if b == old else b] for a, b in e["omap"]]
+                    else:
+                        outs = [o for n in case["g"]["nodes"] if n["name"] == nm for o in n["outputs"]]
+                        e2["omap"] = [[o, new if o == old else o] for o in outs]
+                yield dict(case, exp=ex[:i] + [[nm, e2]] + ex[i + 1:])
     if case["t"] == "split":
         ks = case.get("keys", [])
         for i in range(len(ks)):
@@ -330,11 +533,103 @@ def gen_case(rng, t, nmax, adversarial=True):
             if rng.random() < 0.3:
                 tab.append([nm, rng.choice(["x", "main", nm + ".", rng.choice(names), "zz" + nm])])
         case["table"] = tab
+    if t == "expand":
+        exp = []
+        for n in ag["nodes"]:
+            if rng.random() < 0.35:
+                exp.append([n["name"], gen_expansion(rng, n, adversarial=adversarial)])
+        if not exp:
+            n = rng.choice(ag["nodes"])
+            exp.append([n["name"], gen_expansion(rng, n, adversarial=adversarial)])
+        case["exp"] = exp
     if t == "split":
         nk = rng.randint(1, 3)
         case["default"] = 0
         case["keys"] = [[nm, rng.randrange(nk)] for nm in names if rng.random() < 0.8]
     return case
+
+
+LEAF_NAMES = ["mean", "m", "a", "main", "n", "i", "ma.in", ".x", "leaf", "out", "w", "0", "a.b", "nim", "x"]
+
+
+def gen_expansion(rng, node, adversarial=True):
+    """A sub-graph + maps for outer node `node` (mostly meaningful: every output has a leaf)."""
+    inames = [k for k, _, _ in node["inputs"]]
+    pool_in = L.INPUT_NAMES if adversarial else L.PLAIN_INPUT_NAMES
+    outsets = [["0"], ["0"], ["o1", "o2"], ["0", "1"]] + ([["name"], ["leaves", "0"], ["payload"]] if adversarial else [])
+    nodes = []
+    used = set()
+
+    def fresh(base):
+        nm = base
+        c = 0
+        while nm in used:
+            nm = base + str(c)
+            c += 1
+        used.add(nm)
+        return nm
+
+    use_imap = rng.random() < 0.5
+    imap = [] if use_imap else None
+    for k in inames:
+        if rng.random() < 0.75:
+            if use_imap:
+                nm = fresh(rng.choice(["src", "reader", "s", k, "in"]))
+                imap.append([nm, k])
+            else:
+                nm = fresh(k)
+                if nm != k:
+                    continue
+            nodes.append({"name": nm, "outputs": list(rng.choice(outsets)), "payload": rng.randint(0, 4), "inputs": []})
+    if rng.random() < 0.3 or not nodes:
+        nodes.append({"name": fresh(rng.choice(["free", "const", "f"])), "outputs": list(rng.choice(outsets)), "payload": rng.randint(0, 4), "inputs": []})
+    if use_imap and rng.random() < 0.04:
+        imap.append([fresh("ghost"), "no-such-input"])        # invalid: KeyError
+    for _ in range(rng.randint(0, 2)):
+        cands = [(j, o) for j, x in enumerate(nodes) for o in x["outputs"]]
+        ks = rng.sample(pool_in, rng.randint(1, min(2, len(cands))))
+        nodes.append({"name": fresh(rng.choice(["proc", "p", "mid", "process-0"])), "outputs": list(rng.choice(outsets)),
+                      "payload": rng.randint(0, 4), "inputs": [[kn] + list(rng.choice(cands)) for kn in ks]})
+    use_omap = rng.random() < 0.6
+    omap = [] if use_omap else None
+    leaves = {}
+    for o in node["outputs"]:
+        if use_omap and leaves and rng.random() < 0.15:
+            omap.append([o, rng.choice(list(leaves))])      # two outputs share one leaf
+            continue
+        if use_omap and rng.random() < 0.8:
+            ln = fresh(rng.choice(LEAF_NAMES) if adversarial else rng.choice(["leaf", "out", "w"]))
+            omap.append([o, ln])
+        else:
+            ln = fresh(o)
+            if ln != o:
+                if use_omap:
+                    omap.append([o, ln])
+                else:
+                    used.discard(ln)
+                    continue      # cannot give this output a leaf without a map: left unmapped (invalid if consumed)
+        cands = [(j, oo) for j, x in enumerate(nodes) for oo in x["outputs"]]
+        ks = rng.sample(pool_in, rng.randint(1, min(2, len(cands))))
+        kind = rng.random()
+        outs = [] if kind < 0.8 else (["0"] if kind < 0.95 else ["o1"])
+        nodes.append({"name": ln, "outputs": outs, "payload": rng.randint(0, 4), "inputs": [[kn] + list(rng.choice(cands)) for kn in ks]})
+        leaves[ln] = len(nodes) - 1
+    if rng.random() < 0.25:
+        cands = [(j, oo) for j, x in enumerate(nodes) for oo in x["outputs"]]
+        if cands:
+            nodes.append({"name": fresh(rng.choice(["inner", "writer", "dump"])), "outputs": [], "payload": rng.randint(0, 4),
+                          "inputs": [[rng.choice(pool_in)] + list(rng.choice(cands))]})
+    consumed = {j for x in nodes for _, j, _ in x["inputs"]}
+    sinks = [i for i in range(len(nodes)) if i not in consumed]
+    for ln, i in leaves.items():
+        if i not in sinks:
+            sinks.append(i)
+    rng.shuffle(sinks)
+    sub = L.normalise({"nodes": nodes, "sinks": sinks})
+    e = {"sub": sub, "imap": imap, "omap": omap}
+    if imap is None and omap is None and rng.random() < 0.5:
+        e["bare"] = True
+    return e
 
 
 def _nontrivial(ag):
@@ -409,6 +704,8 @@ def correspond(ctx):
                 ctx.count("feature:" + k)
         if "err" in out:
             ctx.count("impl_error:" + str(out["err"]))
+        for k, v in out.get("stats", {}).items():
+            ctx.count(k, v)
         for fl in fails:
             key = (case["t"], fl["kind"])
             if key in reported and len(reported) > 0 and ctx.dist.get("viol:" + "/".join(key), 0) >= 3:
@@ -424,6 +721,9 @@ def correspond(ctx):
     for case, io, mo in zip(cases, impl, mouts):
         ctx.traces += 1
         t = case["t"]
+        if io.get("invalid"):
+            ctx.count("invalid_expansion_not_compared")
+            continue
         try:
             if t == "split" and "ok" in mo:
                 mo = {"ok": model_split_view(mo["ok"])}
